@@ -241,6 +241,31 @@ def count_sweep(S, rnd, windex, limit, cnt, res, prefix="c01", kinds=("headers",
                     return
 
 
+def nul_in_path_probe(S, rnd, windex, cnt, res):
+    """%00 in the URL path (only HTTP can carry it): the application must see the path the peer encoded, or the request is refused -
+    never a path cut short at the NUL byte"""
+    for app in (b"/echo", b"/aecho"):
+        tail = rnd.choice([b"zzz", b"/../x", b""])
+        wire = app + b"/adm%00" + tail
+        c = srv.Conn(S, "http")
+        try:
+            c.send(b"GET " + wire + b" HTTP/1.0\r\nHost: localhost\r\nX-Token: N%d\r\n\r\n" % windex)
+            raw, _ = c.recv_all(10)
+        finally:
+            c.close()
+        d = proto.http_parse_response(raw)
+        cnt("nul_path_probes")
+        if d["status"] == 200:
+            try:
+                echo = json.loads(d["body"].decode("latin-1"))
+            except ValueError:
+                continue
+            got = hx(echo["path_info"])
+            if got != b"/adm\0" + tail:
+                res["viol"].append({"key": "c01:path-info-differs:http-nul-byte", "detail": "sent %r, application saw PATH_INFO %r" % (wire, got), "replay": {"proto": "http", "wire": wire.decode()}})
+                return
+
+
 def keepalive_value_sweep(S, rnd, windex, cnt, res, prefix="c01"):
     """two or three requests on one kept-alive connection (http keep-alive, fastcgi keep_conn) where an early one carries a header value
     of a given length and a later one more header bytes than that: per-connection buffers and pools are reused between the requests"""
@@ -288,6 +313,8 @@ def worker(args):
         count_sweep(S, rnd, windex, 140 if ncases < 50 else 560, cnt, res)
         if not res["viol"]:
             keepalive_value_sweep(S, rnd, windex, cnt, res)
+        if not res["viol"]:
+            nul_in_path_probe(S, rnd, windex, cnt, res)
         for ci in range(ncases):
             if time.time() > t_end or res["viol"]:
                 break
